@@ -418,6 +418,12 @@ def r_assembly(ctx, model):
               expected="cij[:, i, j] = column c<min(i,j)+1><max(i,j)+1>", found=", ".join(bad[:8]) or "as required",
               explanation="the stiffness matrix inverted for the Reuss averages is not the full symmetric tensor of the row",
               key="static.assembly")
+    cut = getattr(invs[0], "truncated", None)
+    ctx.check(cut is None, "the compliances behind the Reuss averages are the inverse itself, for every conditioning of the row's tensor", w,
+              expected="numpy.linalg.inv (or a pseudo-inverse with a cut-off of machine-precision size)", found=f"pseudo-inverse with cut-off {cut}" if cut is not None else "an inverse",
+              explanation=f"the row's stiffness is inverted by a pseudo-inverse that drops every eigenvalue below {cut} x the largest one: for a table with a soft shear mode "
+                          f"the compliance of that mode is set to zero, and bm_R, G_R, the Hill values and the velocities no longer follow from the row's moduli",
+              key="static.inverse-truncated")
 
 
 def r_library(ctx, model):
